@@ -19,12 +19,19 @@ let () =
     let ds = decode_journal j in
     let model = render_result (K.transcode_cmd true v ds) in
     (* the reader applied to the model's own text must give back the model's items; otherwise
-       the theorems (about items) and the spec verdict (about text) would talk past each other *)
-    let roundtrip_ok = match v with
+       the theorems (about items) and the spec verdict (about text) would talk past each other.
+       That is a theorem (Properties/C16.v C16_model_text_roundtrip) under the lexical side
+       conditions journal_lex_b / commodity_lex_b, which are evaluated here on every case; only a
+       case outside them (none is generated) is still tested with roundtrip_b. *)
+    let lex_ok = match v with
+      | Some vc -> K.commodity_lex_b vc &&
+          (match K.parse_directives ds with K.MOk dl -> K.journal_lex_b dl | _ -> true)
+      | None -> true in
+    let roundtrip_ok = lex_ok || (match v with
       | Some vc -> (match K.transcode_days true vc ds with
           | K.COk days -> K.roundtrip_b vc days
           | _ -> true)
-      | None -> true in
+      | None -> true) in
     let spec =
       if not roundtrip_ok then "FAIL:reader-roundtrip reading the model's text does not give back the model's entries"
       else match prefix_strip "OK " obs with
